@@ -1044,3 +1044,53 @@ pub fn classes_c06(c: &Case) -> Vec<&'static str> {
     }
     out
 }
+
+// ------------------------------------------------------------------ mirror of the Coq class
+/// Mirror of `AV.H1.ConnQuiet.calm` (the complement of `Known_F15`) on the concatenation of all
+/// arrivals: every request that is followed by further request material is `good` (keep-alive
+/// context, no body, handler never forces close). The driver computes the Coq definition on every
+/// case and the two must agree (part of the compared value).
+pub fn coq_calm(c: &Case) -> bool {
+    let stream: Vec<&Item> = c.rounds.iter().flat_map(|r| r.arrive.iter()).collect();
+    let ka_enabled = c.cfg.ka != 0;
+    let good = |i: usize| {
+        let r = &c.reqs[i];
+        let conn_ka = match r.copt {
+            1 => false,
+            2 => true,
+            _ => r.v11,
+        } && ka_enabled;
+        conn_ka && r.body == 0 && !c.hs[i].iter().any(|a| matches!(a, HAct::Respond { copt: 1, .. }))
+    };
+    fn body_tail(l: &[&Item]) -> bool {
+        for (k, it) in l.iter().enumerate() {
+            match it {
+                Item::Data { .. } => {}
+                Item::End => return k + 1 == l.len(),
+                _ => return false,
+            }
+        }
+        true
+    }
+    let mut l: &[&Item] = &stream;
+    loop {
+        match l.first() {
+            None => return true,
+            Some(Item::Req { i }) => {
+                let rest = &l[1..];
+                if c.reqs[*i].body != 0 {
+                    return body_tail(rest);
+                }
+                if rest.is_empty() {
+                    return true;
+                }
+                if !good(*i) {
+                    return false;
+                }
+                l = rest;
+            }
+            Some(Item::Part { .. }) => l = &l[1..],
+            Some(_) => return true,
+        }
+    }
+}
